@@ -3,7 +3,9 @@
 Lattice: towers 1..4 x steps 1..4 x {2-D, 3-D} x value classes {index-encoded (value = f(time, tower,
 level, j, i), so any misplacement is visible), negative, denormal 1e-310, huge 1e30} x input dtype
 {float64, float32} x timestamps {ISO strings, integers (index)} x forcing {ustar list, z0 with list wind,
-z0 with scalar wind (steps=1)}; plus solver-produced result sets from run_bldfm_multitower (2-D and 3-D).
+z0 with scalar wind (steps=1)}; plus solver-produced result sets from run_bldfm_multitower (2-D and 3-D); plus HISTORIES: all sequences of
+(save result set k to path p, load p) of length 2 (thorough 3) over 4 result sets x 2 paths that reuse a path -
+every load must return what was saved last to that path.  Tower names are deliberately not in alphabetical order.
 Oracle after save + load: footprint / concentration bit-equal for every (time, tower[, level]); x, y (z) equal
 the grid; time labels == str(timestamp); tower names in order, each with its own lat / lon / height; ustar, mol,
 wind per step (NaN iff the forcing has no ustar); .sel(tower=name) / .sel(time=label) return exactly that
@@ -25,7 +27,7 @@ MANIFEST = {
 }
 
 NX, NY = 5, 3
-TOW = [("alpha", 50.001, 10.002, 5.0), ("bravo", 50.004, 10.0005, 7.5), ("charlie", 49.999, 10.006, 3.0), ("delta", 50.0025, 9.998, 12.0)]
+TOW = [("west_mast", 50.001, 10.002, 5.0), ("hill_top", 50.004, 10.0005, 7.5), ("east_mast", 49.999, 10.006, 3.0), ("alpha", 50.0025, 9.998, 12.0)]  # deliberately not in alphabetical order
 
 
 def lattice(tier):
@@ -97,6 +99,16 @@ def verify(cfg, res, x, y, zl, threed, path, lab):
     save_footprints_to_netcdf(res, cfg, path)
     ds = load_footprints_from_netcdf(path)
     try:
+        _compare_loaded(ds, cfg, res, x, y, zl, threed, bad)
+    except Exception as e:  # the loaded dataset does not even have the structure of what was saved
+        bad("structure", "the loaded dataset cannot be read as the saved result set (%s: %s); dims %s" % (type(e).__name__, str(e)[:120], dict(ds.sizes)))
+    finally:
+        ds.close()
+    return v
+
+
+def _compare_loaded(ds, cfg, res, x, y, zl, threed, bad):
+    if True:
         names = [t.name for t in cfg.towers]
         ns = len(res[names[0]])
         if [str(n) for n in ds["tower"].values] != names:
@@ -132,9 +144,6 @@ def verify(cfg, res, x, y, zl, threed, path, lab):
                         bad("met", "%s[%d] is %r for a forcing without %s (expected NaN)" % (nm, s, got, nm))
                 elif got != want:
                     bad("met", "%s[%d] is %r, step value %r" % (nm, s, got, want))
-    finally:
-        ds.close()
-    return v
 
 
 def case_file(case):
@@ -146,6 +155,37 @@ def case_file(case):
         if os.path.exists(path):
             os.unlink(path)
     return {"v": v[:5], "nt": True, "n": 1, "obs": {"elements": case["nt"] * case["ns"] * NX * NY * (2 if case["threed"] else 1) * 2}}
+
+
+HIST_SETS = [
+    {"nt": 2, "ns": 2, "threed": False, "values": "index", "dtype": "float64", "ts": "iso", "forcing": "ustar"},
+    {"nt": 2, "ns": 2, "threed": False, "values": "negative", "dtype": "float64", "ts": "iso", "forcing": "ustar"},
+    {"nt": 3, "ns": 1, "threed": True, "values": "index", "dtype": "float64", "ts": "index", "forcing": "z0-scalar"},
+    {"nt": 1, "ns": 3, "threed": False, "values": "huge", "dtype": "float64", "ts": "index", "forcing": "z0-list"},
+]
+
+
+def case_history(case):
+    """histories of save/load on TWO reused paths: after every save the next load of that path must return exactly
+    what was saved last (no state kept between calls)"""
+    v = []
+    paths = [os.path.join(os.getcwd(), "h%s_%d.nc" % (core.case_hash(case), k)) for k in range(2)]
+    n = 0
+    try:
+        for step, (pi, si) in enumerate(case["ops"]):
+            cfg, res, x, y, zl = build(HIST_SETS[si])
+            vv = verify(cfg, res, x, y, zl, HIST_SETS[si]["threed"], paths[pi], "history %s, step %d (result set %d written to path %d)" % (case["ops"], step, si, pi))
+            n += 1
+            for d in vv:
+                d["sig"] = "history/" + d["sig"]
+            v += vv
+            if v:
+                break
+    finally:
+        for p in paths:
+            if os.path.exists(p):
+                os.unlink(p)
+    return {"v": v[:4], "nt": len(case["ops"]) > 1, "n": n}
 
 
 def case_solver(case):
@@ -180,5 +220,9 @@ def run(ctx):
         "plus 16 solver-produced result sets (2-D/3-D x ustar/z0 x footprint/dispersion x precision); one file per case, every element and label compared; all cases distinct and non-trivial"
     )
     ctx.run_cases(case_file, lattice(ctx.tier), sub="synthetic")
+    depth = 2 if ctx.tier == "quick" else 3
+    alphabet = [(p, k) for p in (0, 1) for k in range(len(HIST_SETS))]
+    hist = [{"ops": [list(o) for o in h]} for d in range(2, depth + 1) for h in itertools.product(alphabet, repeat=d) if len({o[0] for o in h}) < len(h)]
+    ctx.run_cases(case_history, hist, sub="same-path-histories")
     sc = [{"threed": a, "forcing": b, "footprint": c, "prec": d} for a, b, c, d in itertools.product((False, True), ("ustar", "z0"), (True, False), ("single", "double"))]
     ctx.run_cases(case_solver, sc, sub="solver-produced", chunksize=1)
